@@ -728,7 +728,7 @@ def c12(tier):
     # seven legend tails; replayed: same elements, same canvas, same rules
     cfgf = write_cfg("MC_Full", {"W": 2, "H": 1 if tier == "quick" else 2,
                                  "Alphabet": tla_set([32, 34, 45, 124, 97, 19968, 123, 125])},
-                     ["ModelC12x", "ModelC12", "LegendCut", "Emit"], init="Init")
+                     ["ModelC12x", "ModelC12", "LegendCut", "HeaderLineHonoured", "Emit"], init="Init")
     resf = run.model("MC_Full", cfgf, timeout=5000)
     def props_for(t):
         # a "# Legend:" that does not start its line is outside the statements (the code cuts there, the
@@ -1930,6 +1930,9 @@ def c16(tier):
     cases = []
     for i in range(n):
         art = r.choice(["", "ab", gen.box(r.randint(1, 6), 1), gen.random_grid(r, 6, 2, "-|+ab ", 0.5)])
+        if i % 9 == 4:
+            # the marker's text earlier in the drawing, where it is not a header: in a sentence, inside a quoted string
+            art = r.choice(["see # Legend: below", '"# Legend:" --', "a # Legend:b\n+--+", "x  # Legend: y\n# Legendary"]) + "\n" + art
         art = "\n".join(x.rstrip() for x in art.split("\n"))
         ents = []
         for _ in range(r.randint(0, 6)):
